@@ -106,7 +106,7 @@ class Engine:
         return xs, box
 
     def run_kernel(self, fname, window, mp, mask, mask2=None, mode="f64", numeric=None, numeric2=None,
-                   extra_args=None, pre_assume=None):
+                   extra_args=None, pre_assume=None, share=None):
         """Execute `fname` (an outer *_to function) on a series described by `mask`."""
         t0 = time.time()
         fn = self.fns.get(fname)
@@ -115,6 +115,9 @@ class Engine:
         ex = Executor(self.fns, self.solver, self.consts, natives.NATIVES, mode)
         ex.numeric = numeric is not None
         ex.normalizer = None      # (normalising validity queries made ts_vcorr 90x slower; measured)
+        if share is not None:     # second run of a relational query: same sqrt symbols and their defining assumptions
+            ex.sqrt_memo = share.sqrt_memo
+            ex.assumptions = share.assumptions
         xs, box = self.make_series("x", mask, numeric)
         ex.series = {"self": xs}
         ex.assumptions.extend(box)
